@@ -68,8 +68,10 @@ attribute for attribute, caches included.  A history violation is reported once,
 prefix, with signature (hist, plain|extint, wrong_after_<last event of that prefix>, <most
 primitive failing relation>).
 """
+import contextlib
 import itertools
 import math
+import os
 
 import numpy as np
 
@@ -77,7 +79,7 @@ from vmc import bfs
 from vmc import common, families
 from vmc.numerics import EPS
 from vmc.parallel import run_shards, shard
-from vmc.report import Check
+from vmc.report import Broken, Check
 
 PID = "C11"
 LEVEL = "exploration"
@@ -513,10 +515,10 @@ def check_shape(chk, view, rel, case, got, Ns):
             ok = False
         else:
             for k, n in enumerate(Ns):
-                a = np.asarray(got[k])
-                if a.shape != (n,) or a.dtype.kind != "f":
+                a = np.asarray(got[k], dtype=float)      # values: any real numeric container
+                if a.shape != (n,):
                     ok = False
-    except TypeError:
+    except (TypeError, ValueError):
         ok = False
     if not ok:
         chk.fail((view, rel, "shape"), case, observed=repr(got)[:200],
@@ -541,6 +543,78 @@ def sinr_matches(case, got, ref, parts, extra_kappa=None):
             if not sinr_close(float(got[k][l]), float(ref[k][l]), kap)[0]:
                 return False
     return True
+
+
+MISSING = object()
+
+
+def _private(obj, *names, default=MISSING):
+    """a private helper of the library, by any of its known names; MISSING when the implementation
+    does not have it (a rename / refactoring of private code is not a violation: the relation that
+    needs it is skipped and counted, the same content is judged through the public entry points)"""
+    for n in names:
+        v = getattr(obj, n, MISSING)
+        if v is not MISSING:
+            return v
+    return default
+
+
+def _call_private(chk, what, helper, *args):
+    """call a private helper; a changed private signature makes the relation unavailable"""
+    try:
+        return helper(*args)
+    except TypeError as e:
+        if e.__traceback__ is not None and e.__traceback__.tb_next is None:   # raised by the call itself
+            chk.outcome("oracle_input_unavailable", what + ("signature",))
+            return MISSING
+        raise
+
+
+def _raised_in_check(exc):
+    """True when the innermost frame that belongs either to the implementation or to /verif is
+    code of /verif: the check's own code failed (an attribute it assumed, an assertion of the
+    oracle), which says nothing about the property"""
+    import traceback
+    for fr in reversed(traceback.extract_tb(exc.__traceback__)):
+        fn = os.path.abspath(fr.filename)
+        if fn.startswith(common.REPO + os.sep) or "/pyphysim/" in fn:
+            return False
+        if fn.startswith(common.VERIF_DIR + os.sep):
+            return True
+    return False
+
+
+@contextlib.contextmanager
+def guard(chk, sig_prefix, case):
+    """chk.guard, except that an exception raised by the check's own code ends the run as BROKEN
+    (exit 2) instead of being reported with a property signature; exceptions raised inside
+    pyphysim for valid calls remain violations"""
+    with chk.guard(sig_prefix, case):
+        try:
+            yield
+        except (KeyboardInterrupt, SystemExit, Broken):
+            raise
+        except BaseException as e:      # noqa
+            if _raised_in_check(e):
+                import traceback
+                raise Broken("the check's own code raised %s: %s at %s (case %r)" % (
+                    type(e).__name__, e,
+                    "; ".join("%s:%d" % (os.path.basename(f.filename), f.lineno)
+                              for f in traceback.extract_tb(e.__traceback__)[-3:]),
+                    {k: case[k] for k in list(case)[:8]} if isinstance(case, dict) else case)) from e
+            raise
+
+
+def pl_factor(Nr, Nt_all, PL):
+    """sqrt(path loss) expanded to the big matrix by the check's own loops (ones if PL is None)"""
+    rx = [k for k, n in enumerate(Nr) for _ in range(n)]
+    tx = [j for j, n in enumerate(Nt_all) for _ in range(n)]
+    out = np.ones((len(rx), len(tx)))
+    if PL is not None:
+        for r in range(len(rx)):
+            for c in range(len(tx)):
+                out[r, c] = math.sqrt(float(PL[rx[r], tx[c]]))
+    return out
 
 
 def noise_presentations(value):
@@ -669,7 +743,7 @@ def run_chan_case(case, chk, live=None):
     whose current state is described by `inp` / `case` (history exploration) instead of building
     a fresh object"""
     view = live["view"] if live else view_of(case)
-    with chk.guard((view,), case):
+    with guard(chk, (view,), case):
         inp = live["inp"] if live else make_inputs(case)
         K, Ns = inp["K"], case["Ns"]
         jp = case["var"] == "JP"
@@ -777,12 +851,16 @@ def run_chan_case(case, chk, live=None):
                 arg = Re[k]
             else:
                 arg = case["noise"] if (case["noise"] is not None or not jp) else 0.0
-            if jp:
-                B = ch._calc_JP_Bkl_cov_matrix_all_l(Fo, k, arg)
-                bn = "JP_Bkl_cov_matrix_all_l"
-            else:
-                B = ch._calc_Bkl_cov_matrix_all_l(Fo, k, arg)
-                bn = "Bkl_cov_matrix_all_l"
+            # (private helpers named by the property's anchors; their content is also judged through
+            #  the public calc_SINR / calc_JP_SINR / calc_Q / calc_JP_Q above)
+            bn = "JP_Bkl_cov_matrix_all_l" if jp else "Bkl_cov_matrix_all_l"
+            helper = _private(ch, "_calc_" + bn)
+            if helper is MISSING:
+                chk.outcome("oracle_input_unavailable", (type(ch).__name__, "_calc_" + bn))
+                continue
+            B = _call_private(chk, (type(ch).__name__, "_calc_" + bn), helper, Fo, k, arg)
+            if B is MISSING:
+                continue
             if len(B) != Ns[k]:
                 chk.fail((view, bn, "shape"), case, observed=len(B), expected=Ns[k])
             else:
@@ -881,7 +959,7 @@ def run_solver_case(case, chk, live=None):
     full_W_H before the channel object was changed"""
     ext = case["chan"] == "ext"
     view = live["view"] if live else ("solver_extint" if ext else "solver")
-    with chk.guard((view,), case):
+    with guard(chk, (view,), case):
         import pyphysim.ia.algorithms as alg
         import pyphysim.ia.iabase as iabase
         inp = live["inp"] if live else make_inputs(case)
@@ -1060,8 +1138,7 @@ def run_solver_case(case, chk, live=None):
                 own += math.log2(1.0 + float(got[k][l]))
                 tol += C_TOL * EPS * kap / math.log(2.0)
         chk.count("eval_calc_sum_capacity")
-        if not (isinstance(cap, (float, np.floating)) and
-                abs(float(cap) - own) <= 64 * EPS * max(1.0, abs(own))):
+        if not abs(float(cap) - own) <= 64 * EPS * max(1.0, abs(own)):
             chk.fail((view, "calc_sum_capacity", "is_sum_log2_of_calc_SINR"), case, observed=cap,
                      expected=own)
         if ok_k and not ignores_ext and \
@@ -1073,9 +1150,15 @@ def run_solver_case(case, chk, live=None):
         for k in range(K):
             Qref = ref.cov(k, fullF, False, skip=lambda s_, k=k: s_[0] == k)
             compare_cov(chk, view, "calc_Q", case, k, sol.calc_Q(k), Qref, 0.0)
-            B = sol._calc_Bkl_cov_matrix_all_l(k)
+            helper = _private(sol, "_calc_Bkl_cov_matrix_all_l")
+            if helper is MISSING:
+                chk.outcome("oracle_input_unavailable", ("solver", "_calc_Bkl_cov_matrix_all_l"))
+            B = MISSING if helper is MISSING else _call_private(
+                chk, ("solver", "_calc_Bkl_cov_matrix_all_l"), helper, k)
             tot = float(np.max(np.abs(ref.cov(k, fullF, False, skip=lambda s_: False))))
-            if len(B) != Ns[k]:
+            if B is MISSING:
+                pass
+            elif len(B) != Ns[k]:
                 chk.fail((view, "Bkl_cov_matrix_all_l", "shape"), case, observed=len(B),
                          expected=Ns[k])
             elif not ignores_ext:       # (same defect: B_kl is what calc_SINR is computed from)
@@ -1269,8 +1352,9 @@ class HistState:
 
 def _digest_state(st):
     from vmc import bfs
-    return bfs.digest([bfs.state_of(st.ch)] + [{k: v for k, v in bfs.state_of(o).items() if k != "_multiUserChannel"}
-                                        for o in st.solvers()], 9)
+    return bfs.digest([bfs.state_of(st.ch)] +
+                      [{k: v for k, v in bfs.state_of(o).items() if v is not st.ch}
+                       for o in st.solvers()], 9)
 
 
 BACKOFF = (0.6, 0.25, 0.9, 0.5)      # per-user power back-off of an explicitly given full_F
@@ -1289,6 +1373,8 @@ def hist_new(cfg, data, second_solver=False):
     from pyphysim.ia.iabase import IASolverBaseClass
     ext = cfg["chan"] == "ext"
     st = HistState()
+    st.model_pl = 0           # path-loss id of the reference model
+    st.raw_learnt = None      # raw channel learnt from the object (randomize bypassed the seam)
     st.soft = []              # (sub-call, raised?, objects unchanged?) of every invalid call made
     st.unknown = set()        # parts ("H","PL","noise","F","W","P") an invalid call has damaged and
     #                           no valid call has re-established yet
@@ -1376,6 +1462,17 @@ def invalid_calls(cfg, data, st, which):
     ]
 
 
+_ORIG_RANDN_C_RS = [None]
+
+
+def seed_channel(ch, seed):
+    """public seeding of the channel generator (keeps replays deterministic when randomize does
+    not go through the scripted seam)"""
+    f = getattr(ch, "set_channel_seed", None)
+    if f is not None:
+        f(seed)
+
+
 def hist_apply_touch(ch, data, arg, pe_touch, st):
     if arg == "IC":
         ch.calc_SINR(objarr(data["F"]["a"]), objarr(data["U"]), *pe_touch)
@@ -1399,6 +1496,7 @@ def hist_apply(cfg, data, st, ev):
     pe_touch = (0.5,) if ext else ()
     if kind == "pl":
         st.unknown.discard("PL")
+        st.model_pl = arg
         PLm = data["PL"][arg]
         if PLm is None:
             ch.set_pathloss(None)
@@ -1411,13 +1509,21 @@ def hist_apply(cfg, data, st, ev):
         ch.noise_var = H_NOISES[arg]
     elif kind == "init":
         st.unknown.discard("H")
+        st.raw_learnt = None
         _hist_init(cfg, data, st, arg)
     elif kind == "rand":
         st.unknown.discard("H")
-        # the library's only random draw is scripted: it returns family member `arg`
+        st.raw_learnt = None
+        calls = [0]
+
+        # the library's random draw is scripted where it goes through randn_c_RS: family member `arg`
         def fake(_rs, *shape, H2=data["H"][arg]):
-            assert tuple(int(v) for v in shape) == H2.shape, (shape, H2.shape)
+            calls[0] += 1
+            if tuple(int(v) for v in shape) != H2.shape:      # some other use of the generator
+                return _ORIG_RANDN_C_RS[0](_rs, *shape)
             return np.array(H2, copy=True)
+        _ORIG_RANDN_C_RS[0] = getattr(multiuser, "randn_c_RS", None)
+        seed_channel(ch, 1000 + arg)
         with seams.patched((multiuser, "randn_c_RS", fake)):
             if ext:
                 ch.randomize(Nr, Nt, K, _nte_arg(cfg))
@@ -1425,6 +1531,12 @@ def hist_apply(cfg, data, st, ev):
                 ch.randomize(int(cfg["Nr"][0]), int(cfg["Nt"][0]), K)      # ints are documented
             else:
                 ch.randomize(Nr, Nt, K)
+        if calls[0] == 0:
+            # the implementation drew the channel some other way (the property does not say how):
+            # the raw channel is learnt from the public big_H with the model's path loss divided out
+            PLm = data["PL"][st.model_pl]
+            st.raw_learnt = np.asarray(ch.big_H) / pl_factor(
+                cfg["Nr"], list(cfg["Nt"]) + list(data["ntE"]), PLm)
     elif kind == "setF":
         st.unknown.discard("F")
         if arg == "b":      # python lists are accepted too
@@ -1518,6 +1630,8 @@ def hist_observe(chk, cfg, data, hist, st):
         t2 = chk.child_check()
         try:
             _hist_observe_raw(t2, cfg, data, h, hist_build(cfg, data, h))
+        except Broken:
+            raise
         except Exception as e:      # noqa - a history that cannot even be built fails
             t2.fail(("hist", "exception", type(e).__name__), None, observed=repr(e))
         return t2.violations or None
@@ -1576,7 +1690,11 @@ def _hist_observe_raw(chk, cfg, data, hist, st):
         # the channel object was changed by an invalid call and not re-established by valid calls
         chk.count("hist_observations_skipped_channel_not_reestablished")
         return (m["mem"], m["pl"], m["noise"], "channel state unknown")
-    inp = dict(K=data["K"], ntE=data["ntE"], Hraw=data["H"][m["mem"]], PL=data["PL"][m["pl"]],
+    Hraw = data["H"][m["mem"]]
+    if getattr(st, "raw_learnt", None) is not None:
+        Hraw = st.raw_learnt
+        chk.outcome("randomize_seam", "bypassed: raw channel learnt from big_H")
+    inp = dict(K=data["K"], ntE=data["ntE"], Hraw=Hraw, PL=data["PL"][m["pl"]],
                F=data["F"]["a"], Fjp=data["Fjp"], U=data["U"])
     mk = (m["mem"], m["pl"], m["noise"], m["F"], m["W"], m["P"], m["cached"], m["stale"])
     sub = dict(cfg, hist=[list(e) for e in hist], noise=H_NOISES[m["noise"]], pl=m["pl"],
@@ -1606,7 +1724,7 @@ def run_hist_unit(unit, chk):
     cfg = {k: v for k, v in unit.items() if k != "first"}
     data = hist_data(cfg)
     evs = [tuple(e) for e in (EV_FULL if cfg["alphabet"] == "full" else EV_CORE)]
-    with chk.guard(("hist", cfg["chan"]), dict(cfg, hist=[unit["first"]] if unit["first"] else [])):
+    with guard(chk, ("hist", cfg["chan"]), dict(cfg, hist=[unit["first"]] if unit["first"] else [])):
         if unit["first"] is None:
             st = hist_build(cfg, data, ())
             hist_observe(chk, cfg, data, (), st)
@@ -1647,7 +1765,7 @@ def replay_hist(case, chk):
            if k in ("kind", "chan", "NtE", "Nr", "Nt", "Ns", "s", "offs", "cls", "alphabet", "depth")}
     data = hist_data(cfg)
     hist = tuple((e[0], e[1]) for e in case["hist"])
-    with chk.guard(("hist", cfg["chan"]), case):
+    with guard(chk, ("hist", cfg["chan"]), case):
         st = hist_build(cfg, data, hist)
         hist_observe(chk, cfg, data, hist, st)
 
@@ -1710,7 +1828,7 @@ def run_multi_sequence(seq, chk, tier):
     (b) with the first-principles oracle of its own model state"""
     objs = multi_objects(tier)
     case = dict(kind="multi", seq=[[lab, list(ev)] for lab, ev in seq], tier_objects=sorted(objs))
-    with chk.guard(("multi_object",), case):
+    with guard(chk, ("multi_object",), case):
         datas = {lab: hist_data(objs[lab][0]) for lab in objs}
         live = {lab: hist_new(objs[lab][0], datas[lab], objs[lab][1]) for lab in sorted(objs)}
         for lab, ev in seq:
@@ -1735,7 +1853,9 @@ def run_multi_sequence(seq, chk, tier):
                     elif kind in ("pl", "init", "rand") and cached:
                         stale = True
                 m = hist_model(sub)
-                inp = dict(K=data["K"], ntE=data["ntE"], Hraw=data["H"][m["mem"]],
+                inp = dict(K=data["K"], ntE=data["ntE"],
+                           Hraw=(st.raw_learnt if st.raw_learnt is not None
+                                 else data["H"][m["mem"]]),
                            PL=data["PL"][m["pl"]], F=data["F"]["a"], Fjp=data["Fjp"], U=data["U"])
                 Fn, P, fullF = model_precoders(m2, data)
                 run_solver_case(dict(cfg, hist=[list(e) for e in sub], noise=H_NOISES[m["noise"]],
@@ -1762,6 +1882,10 @@ def run_multi_sequence(seq, chk, tier):
             cfg, two, _ = objs[lab]
             sub = tuple(tuple(ev) for l2, ev in seq if l2 == lab)
             lone = hist_build(cfg, datas[lab], sub, two)
+            if live[lab].raw_learnt is not None or lone.raw_learnt is not None:
+                # the two objects drew their own random channels: nothing makes them equal
+                chk.count("multi_vs_lone_object_skipped_random_channel")
+                continue
             a, b = outputs[lab], _lone_outputs(cfg, datas[lab], lone)
             for fn in a:
                 chk.count("eval_multi_vs_lone_object")
@@ -1814,7 +1938,7 @@ def capacity_cases(tier):
 
 def run_capacity_case(case, chk):
     view = "capacity_" + case["form"]
-    with chk.guard((view,), case):
+    with guard(chk, (view,), case):
         from pyphysim.channels import multiuser
         from pyphysim.ia.iabase import IASolverBaseClass
         from pyphysim.util import misc
@@ -1903,7 +2027,7 @@ def run_capacity_case(case, chk):
         for name, value in (("calc_sum_capacity", sol.calc_sum_capacity()),
                             ("calc_shannon_sum_capacity", misc.calc_shannon_sum_capacity(flat))):
             chk.count("eval_capacity_accessor_at_scale")
-            if not (isinstance(value, (float, np.floating)) and math.isfinite(value)):
+            if not math.isfinite(float(value)):
                 chk.fail((view, name, "not_finite", regime), case, observed=value,
                          expected="%r (finite: sum of log2(1+SINR) over %d streams)" % (own, n))
                 continue
@@ -2002,6 +2126,18 @@ def layout_build(cfg, data, seq):
         ch.init_from_channel_matrix(*(args + ((NtE_arg,) if ext else ())))
 
     init(0, 0)
+    learnt = {"raw": None, "pending": False}     # raw channel when randomize bypassed the seam
+
+    def learn(m_now):
+        """raw = big_H with the model's path loss divided out (only while that path loss is known)"""
+        if m_now["pl"] == "unknown":
+            learnt["pending"] = True
+            return
+        Ln = data["lay"][m_now["lay"]]
+        learnt["raw"] = np.asarray(ch.big_H) / pl_factor(
+            Ln["Nr"], list(Ln["Nt"]) + list(data["ntE"]), data["PL"][Ln["K"]][m_now["pl"]])
+        learnt["pending"] = False
+
     for i, (kind, arg) in enumerate(seq):
         m = layout_model(seq[:i])
         L = data["lay"][m["lay"]]
@@ -2014,19 +2150,30 @@ def layout_build(cfg, data, seq):
                                 np.array(PLm[:, L["K"]:], copy=True))
             else:
                 ch.set_pathloss(np.array(PLm, copy=True))
+            if learnt["pending"]:
+                learn(layout_model(seq[:i + 1]))
         elif kind == "noise":
             ch.noise_var = H_NOISES[arg]
         elif kind == "init":
+            learnt["raw"], learnt["pending"] = None, False
             init(arg, arg)
         elif kind == "rand":
             L2 = data["lay"][arg]
+            calls = [0]
+            learnt["raw"], learnt["pending"] = None, False
 
             def fake(_rs, *shape, H2=data["H"][arg + 4]):
-                assert tuple(int(v) for v in shape) == H2.shape, (shape, H2.shape)
+                calls[0] += 1
+                if tuple(int(v) for v in shape) != H2.shape:
+                    return _ORIG_RANDN_C_RS[0](_rs, *shape)
                 return np.array(H2, copy=True)
+            _ORIG_RANDN_C_RS[0] = getattr(multiuser, "randn_c_RS", None)
+            seed_channel(ch, 2000 + arg)
             with seams.patched((multiuser, "randn_c_RS", fake)):
                 a_ = (np.array(L2["Nr"]), np.array(L2["Nt"]), L2["K"])
                 ch.randomize(*(a_ + ((NtE_arg,) if ext else ())))
+            if calls[0] == 0:
+                learn(layout_model(seq[:i + 1]))
         elif kind == "touch":
             try:
                 if arg == "IC":
@@ -2037,10 +2184,13 @@ def layout_build(cfg, data, seq):
             except Exception:       # noqa
                 if m["pl"] != "unknown":
                     raise
-    return ch
+    holder = HistState()
+    holder.ch, holder.raw_learnt = ch, learnt["raw"]
+    return holder
 
 
-def _layout_observe_raw(chk, cfg, data, seq, ch):
+def _layout_observe_raw(chk, cfg, data, seq, holder):
+    ch = holder.ch
     m = layout_model(seq)
     if m["pl"] == "unknown":
         chk.count("layout_observations_skipped_pathloss_of_other_K")
@@ -2049,7 +2199,11 @@ def _layout_observe_raw(chk, cfg, data, seq, ch):
     ext = cfg["chan"] == "ext"
     # ground truth independent of H / get_Hkl: the check's own copy of the unscaled matrix and of the
     # K x K (+ Ke) path loss, expanded per block by the oracle
-    inp = dict(K=L["K"], ntE=data["ntE"], Hraw=data["H"][m["mem"]], PL=data["PL"][L["K"]][m["pl"]],
+    Hraw = data["H"][m["mem"]]
+    if holder.raw_learnt is not None:
+        Hraw = holder.raw_learnt
+        chk.outcome("randomize_seam", "bypassed: raw channel learnt from big_H")
+    inp = dict(K=L["K"], ntE=data["ntE"], Hraw=Hraw, PL=data["PL"][L["K"]][m["pl"]],
                F=L["F"], Fjp=L["Fjp"], U=L["U"])
     mk = (m["lay"], m["mem"], m["pl"], repr(m["noise"]))
     sub = dict(kind="hist", chan=cfg["chan"], NtE=cfg["NtE"], Nr=L["Nr"], Nt=L["Nt"], Ns=L["Ns"],
@@ -2064,7 +2218,7 @@ def _layout_observe_raw(chk, cfg, data, seq, ch):
 
 def run_layout_sequence(cfg, data, seq, chk):
     case = dict(cfg, seq=[list(e) for e in seq])
-    with chk.guard(("layout_history", cfg["chan"]), case):
+    with guard(chk, ("layout_history", cfg["chan"]), case):
         tmp = chk.child_check()
         _layout_observe_raw(tmp, cfg, data, seq, layout_build(cfg, data, seq))
         state = tmp.state()
@@ -2079,6 +2233,8 @@ def run_layout_sequence(cfg, data, seq, chk):
             t2 = chk.child_check()
             try:
                 _layout_observe_raw(t2, cfg, data, sq, layout_build(cfg, data, sq))
+            except Broken:
+                raise
             except Exception as e:      # noqa
                 t2.fail(("layout", "exception", type(e).__name__), None, observed=repr(e))
             return t2.violations or None
@@ -2158,6 +2314,11 @@ def main(chk: Check):
                "first principles for the filter the solver itself reports (counted as "
                "hist_solver_observations_with_reported_filter); precoders, powers, channel, path "
                "loss and noise always come from the reference model of the history")
+    chk.assume("randomize: where the implementation draws through multiuser.randn_c_RS the draw is "
+               "scripted (a family member); where it does not (seam call count unchanged) the raw "
+               "channel is learnt from the public big_H with the model's path loss divided out and "
+               "everything is judged against it; bit-for-bit comparisons with lone objects are then "
+               "skipped (two objects are never made equal through seeding)")
     chk.assume("Part H: randomize is driven through the seam multiuser.randn_c_RS (scripted to "
                "return a family member); states are merged only when the digest of every attribute "
                "of the real channel and solver objects (caches included) and the model state agree")
